@@ -25,6 +25,7 @@ type Net struct {
 	mtu      int
 	nodes    map[int]*Node
 	captured []Packet
+	nsent    int
 	// Auto: deliver every captured packet immediately (in Tell order)
 	Auto bool
 }
@@ -75,6 +76,7 @@ func (nd *Node) Tell(ctx context.Context, dst Addr, v p2p.IOVec) error {
 	}
 	pkt := Packet{Src: nd.addr, Dst: dst, Data: p2p.VecBytes(nil, v)}
 	nd.net.captured = append(nd.net.captured, pkt)
+	nd.net.nsent++
 	auto := nd.net.Auto
 	nd.net.mu.Unlock()
 	if auto {
@@ -133,6 +135,9 @@ func (nd *Node) LookupPublicKey(ctx context.Context, a Addr) (string, error) {
 }
 
 // ---- driver side ----
+
+// Sent is the number of packets ever captured.
+func (n *Net) Sent() int { n.mu.Lock(); defer n.mu.Unlock(); return n.nsent }
 
 // Take returns and clears everything captured so far.
 func (n *Net) Take() []Packet {
